@@ -272,6 +272,10 @@ def seq_items(e, K):
         return []
     if callee_is(e, "IntoIterator::into_iter", "Iterator::into_iter") and len(e[3]) == 1:
         return seq_items(e[3][0], K)
+    if e[0] == "call" and e[1] in ("std::iter::once", "core::iter::once") and len(e[3]) == 1:
+        return [e[3][0]]
+    if e[0] == "call" and e[1] in ("std::iter::empty", "core::iter::empty") and not e[3]:
+        return []
     if callee_is(e, "Iterator::chain") and len(e[3]) == 2:
         a, b = seq_items(e[3][0], K), seq_items(e[3][1], K)
         return None if a is None or b is None else a + b
@@ -579,12 +583,23 @@ def check(ctx):
             good = good and match(p.ret, Agg("PushGene::Close")) and len(p.calls()) == 1
         else:
             kinds.add("instr")
-            good = good and match(p.ret, Agg("PushGene::Instruction", Call("Distribution::sample", lambda a: derives_from_self(a, field="instruction_distribution"), lambda a: rng_passthrough(a, 2), nargs=2)))
+            from .ctors import flatten
+            smp = Call("Distribution::sample", lambda a: derives_from_self(a, field="instruction_distribution"), lambda a: rng_passthrough(a, 2), nargs=2)
+            # PushGene::Instruction(sample), or sample.into() through the workspace's `impl From<T: Into<PushInstruction>> for PushGene`
+            v = flatten(ctx, p.ret, 0, (f.id,))
+            good = good and (match(p.ret, Agg("PushGene::Instruction", smp)) or match(v, Agg("PushGene::Instruction", Through(smp, calls=("Into::into", "From::from"))))) and \
+                len([c for c in p.calls() if callee_is(c, "Distribution::sample", "Rng::sample", "Rng::random", "Rng::random_range", "Rng::random_bool")]) == 2
     ctx.check(good and kinds == {"close", "instr"}, "R12.6", "GeneGenerator::sample/Close-iff-draw<close_probability", "; ".join("[%s] -> %s" % (cond_str(p), short(p.ret, 4)) for p in ps), f.at())
     f = ctx.fn("push::genome::plushy::GeneGenerator::<T>::with_uniform_close_probability")
     ps = return_paths(ctx.paths(f))
     one = lambda e: e[0] == "const" and e[3] in ("1.0", 1.0)
-    pat = Call("GeneGenerator::new", BinOp("Div", one, Call("ConvApprox::conv_approx", Call("usize::saturating_add", Call("NonZero::get", Call("ChoicesDistribution::num_choices", Through(Param(1)), nargs=1), nargs=1), Const(1), nargs=2), nargs=1)), Param(1), nargs=2)
+    nch = Call("ChoicesDistribution::num_choices", Through(Param(1)), nargs=1)
+    # n + 1 (saturating): on the usize or on the NonZeroUsize - the same number either way
+    n1 = lambda e: match(e, Call("usize::saturating_add", Call("NonZero::get", nch, nargs=1), Const(1), nargs=2)) or match(e, Call("NonZero::get", Call("NonZero::saturating_add", nch, Const(1), nargs=2), nargs=1))
+    conv = Call("ConvApprox::conv_approx", n1, nargs=1)
+    # 1.0 / x, or x.recip() (defined as 1.0 / x)
+    rate = lambda e: match(e, BinOp("Div", one, conv)) or match(e, Call("f32::recip", conv, nargs=1))
+    pat = Call("GeneGenerator::new", rate, Param(1), nargs=2)
     ctx.check(len(ps) == 1 and match(ps[0].ret, pat), "R12.6", "with_uniform_close_probability=1.0/conv(n+1)", short(ps[0].ret, 7), f.at(),
               bad_detail="expected GeneGenerator::new(1.0 / conv_approx(num_choices().get().saturating_add(1)), distribution); extracted " + "; ".join(short(p.ret, 9) for p in ps))
     f = ctx.fn("push::genome::plushy::GeneGenerator::<T>::new")
